@@ -21,7 +21,7 @@ TECHNIQUE = ("static analysis: sentinel-scan rule over the CFG (branch facts wit
              "lengths, path-order and never-between rules, lookup and narrowing rules")
 LEVEL_TEXT = ("Structural clauses of the statement decided for all inputs: the tokeniser can never "
               "move or look past the terminating NUL, cut lengths are non-negative, the three "
-              "sources are parsed in the documented order, the three no-change cases cannot reach a "
+              "sources are parsed in the documented order (<name>_options exactly when no <exe>_options exists), the three no-change cases cannot reach a "
               "value parser, errors are accounted. Exact numeric conversion by strtol/strtod is "
               "library behaviour and is not decided.")
 LEVEL_NOTE = ("Trusted: clang 14 front end/CFG, tool/mpx.cc, the rule module. Not decided: that "
